@@ -14,7 +14,7 @@ Parts:
              damaged with every combination of faults):
                stop signature: each of its 4 bytes overwritten;
                undefined element 063254 / undefined sequence 363254 substituted at every descriptor position;
-               declared length of section 1..4 decreased / increased by one (total length intact).
+               declared length of section 1..4 decreased / increased by 1, 2, 3/4 and 100 (total length intact).
              x {full, metadata-only} x {continue_on_error, stop on error}.
   cli        `pybufrkit decode -m [--continue-on-error]` on damaged files: an "Error:" line, no traceback.
 Oracle: the harness knows which messages were damaged and where.
@@ -193,6 +193,8 @@ def _bits(v, w):
 
 # ------------------------------------------------------------------------------------------
 # streams
+LENGTH_DELTAS = (-1, 1, -2, 2, -4, 3, 100)      # declared section length decreased / increased
+
 U_ELEM, U_SEQ = (0 << 14) | (63 << 8) | 254, (3 << 14) | (63 << 8) | 254
 
 _SPOOL = None
@@ -208,7 +210,9 @@ def stream_pool():
                 ('C-ed2-BUFR-in-data', 2, None, [205004, 1001, 205004], 1, False),
                 ('D-ed4-repl', 4, b'BUFR', [101002, 2001, 1001], 2, False),
                 ('E-ed4-empty-sec2', 4, b'', [1001], 1, False),
-                ('F-ed4-message-in-data', 4, None, [205000 + len(_inner())], 1, False)]
+                ('F-ed4-message-in-data', 4, None, [205000 + len(_inner())], 1, False),
+                ('G-ed4-trailing-delayed-repl', 4, None, [1001, 101000, 31001, 2001], 1, False),
+                ('H-ed3-comp-repl', 3, None, [1001, 5002, 102002, 2001, 10], 2, True)]
         out = []
         for name, ed, s2, descs, nsub, comp in defs:
             def ch(info, comp=comp, nsub=nsub):
@@ -216,6 +220,8 @@ def stream_pool():
                     v = _inner()      # a complete valid message, octet aligned, inside the data section
                 elif info['kind'] == 'str':
                     v = (b'BUFR' if info['index'] == 0 else b'7777')[:info['width'] // 8]
+                elif info.get('role') == 'factor':
+                    v = 2
                 else:
                     v = 1 + info['index'] % 2
                 return [v] * nsub if comp else v
@@ -248,7 +254,9 @@ def faults_for(b):
         if sec not in pm.sections:
             continue
         off, n = pm.sections[sec]
-        for delta in (-1, 1):
+        for delta in LENGTH_DELTAS:
+            if n + delta < 0:
+                continue
             c = bytearray(b)
             c[off:off + 3] = (n + delta).to_bytes(3, 'big')
             out.append(('len%d%+d' % (sec, delta), 'length', bytes(c)))
@@ -289,6 +297,11 @@ def judge_scan(items, got, exc, info_only, cont):
     for g in got:
         k = next((i for i in range(pos, len(items)) if items[i][0] == g), None)
         if k is None:
+            over = next((d for b, d, _ in items[pos:] if d and len(g) > len(b) and g.startswith(b)), None)
+            if over:
+                return ('damaged-delivered-overlong-%s|%s' % (over, mode),
+                        'a damaged message was delivered, with a span of %d bytes that reaches beyond its declared total '
+                        'length into what follows it (yielded lengths %r)' % (len(g), [len(x) for x in got]))
             holders = [d for b, d, _ in items[pos:] if d and g in b]
             # several damaged messages may hold the same payload: attribute to the length-damaged one if there is one
             inside = 'length' if 'length' in holders else (holders[0] if holders else None)
@@ -319,8 +332,16 @@ def judge_scan(items, got, exc, info_only, cont):
     return None
 
 
-def stream_body(tup):
+def core_fault(label):
+    """the reduced menu used where two or more messages are damaged at once"""
+    return label in ('stop0', 'stop3', 'undef-elem@0') or label.startswith('undef-seq@') and label.endswith('@0') \
+        or (label.startswith('len') and label[-2:] in ('-1', '+1'))
+
+
+def stream_body(tup, menu='full'):
     P = stream_pool()
+    if menu == 'core':
+        P = [(n, b, [f for f in fs if core_fault(f[0])]) for n, b, fs in P]
 
     def body(ctx):
         sep = SEPS[ctx.pick('sep', len(SEPS), 'S')] if len(tup) == 2 else b''
@@ -347,7 +368,7 @@ def stream_body(tup):
 
 
 def run_streams(args):
-    tuples, bound = args
+    tuples, bound, menu = args
     p = Partial()
     st = tree.Stats()
     for tup in tuples:
@@ -355,11 +376,11 @@ def run_streams(args):
             p.n['exec'] += 4
             p.outcome(res['outcome'])
             for sig, detail, io_, cont in res['viols']:
-                p.violation(sig, {'tuple': list(tup), 'choices': ctx.vector(), 'info_only': io_, 'cont': cont}, detail,
+                p.violation(sig, {'tuple': list(tup), 'choices': ctx.vector(), 'info_only': io_, 'cont': cont, 'menu': menu}, detail,
                             observed=res['stream'])
             if not res['viols'] and p.n['exec'] % 4000 == 4:
                 p.sample({'tuple': list(tup), 'choices': ctx.vector()})
-        tree.explore(stream_body(tup), bound, on_leaf, st)
+        tree.explore(stream_body(tup, menu), bound, on_leaf, st)
     p.n['nodes'] += st.nodes
     p.n['edges'] += st.edges
     return p
@@ -415,7 +436,7 @@ def replay(part, case):
         p = run_cli_part(None)
         return [{'sig': v['sig'], 'detail': v['detail']} for v in p.viol
                 if all(v['case'][k] == case[k] for k in ('message', 'fault', 'cont'))]
-    ctx, res = tree.replay(stream_body(tuple(case['tuple'])), case['choices'])
+    ctx, res = tree.replay(stream_body(tuple(case['tuple']), case.get('menu', 'full')), case['choices'])
     return [{'sig': s, 'detail': d} for s, d, io_, cont in res['viols'] if io_ == case['info_only'] and cont == case['cont']]
 
 
@@ -462,13 +483,16 @@ def main(tier, seed):
     p.n['nodes'], p.n['edges'] = p.n['exec'] + 1, p.n['exec']
     rep.add_part('trailing', p, bounds={'messages': len(tmsgs), 'trailers': 6})
     idx = range(len(stream_pool()))
-    plan = [(1, 1), (2, 2), (3, 1)] if tier == 'quick' else [(1, 1), (2, 2), (3, 2), (4, 1)]
-    for j, bound in plan:
+    # full menu with one damaged message at every position; reduced ("core") menu where several are damaged at once
+    plan = ([(1, 1, 'full'), (2, 1, 'full'), (2, 2, 'core'), (3, 1, 'core')] if tier == 'quick' else
+            [(1, 1, 'full'), (2, 1, 'full'), (3, 1, 'full'), (2, 2, 'full'), (3, 2, 'core'), (4, 1, 'core')])
+    for j, bound, menu in plan:
         tuples = list(itertools.product(idx, repeat=j))
-        p = merge_all(run_shards(run_streams, [(s, bound) for s in split(tuples, 64)]))
-        rep.add_part('streams-j%d-d%d' % (j, bound), p,
-                     bounds={'messages_in_stream': j, 'max_damaged': bound, 'pool': len(idx),
-                             'faults_per_message': [len(x[2]) for x in stream_pool()]})
+        p = merge_all(run_shards(run_streams, [(s, bound, menu) for s in split(tuples, 64)]))
+        nf = [len([f for f in x[2] if menu == 'full' or core_fault(f[0])]) for x in stream_pool()]
+        rep.add_part('streams-j%d-d%d-%s' % (j, bound, menu), p,
+                     bounds={'messages_in_stream': j, 'max_damaged': bound, 'pool': len(idx), 'menu': menu,
+                             'faults_per_message': nf})
     p = run_cli_part(None)
     p.n['nodes'], p.n['edges'] = p.n['exec'] + 1, p.n['exec']
     rep.add_part('cli', p, bounds={'invocations': p.n['exec']})
